@@ -814,6 +814,7 @@ class Ctx:
         self.abstracted = False
         self.prune_ite = False
         self.scoped = []
+        self.rewrites = []  # (atom term, defining term): assumed equalities also used as rewrite rules
         self._truth_cache = {}
 
     # -- names -------------------------------------------------------------------------
@@ -837,6 +838,14 @@ class Ctx:
         self.assumptions.append(z)
         self.solver.add(z)
         self._decide_cache.clear()
+
+    def assume_rewrite(self, lhs, rhs, why=""):
+        """assume lhs == rhs (lhs an atom such as an uninterpreted application) and use it as a rewrite
+        rule lhs -> rhs before the ring normal form is computed"""
+        lz = lhs.re if isinstance(lhs, SymNum) else lhs
+        rz = to_z3_real(rhs.re if isinstance(rhs, SymNum) else rhs)
+        self.assume(lz == rz, why)
+        self.rewrites.append((lz, rz))
 
     def note_division(self, den):
         self.divisors.append(den)
@@ -1001,6 +1010,11 @@ class Ctx:
     def _discharge(self, g, hyps):
         """-> (status, backend, model, detail)"""
         from . import ringnf
+
+        if self.rewrites:
+            g = _simp(z3.substitute(g, *self.rewrites))
+            if z3.is_true(g):
+                return "discharged", "rewrite+simplify", None, ""
 
         ng = z3.Not(g)
         r, model, smt2 = self._z3_check(hyps, ng, Z3_FAST_MS)
